@@ -12,9 +12,13 @@ DRIVER = "Driver/C06.lean"
 OBLIGATIONS = ["NiftyVerif.C06." + t for t in (
     "weight_spec", "integrate_eq_sum_weight", "mean_eq_integrate_div_volume", "var_eq_mean_sq_dev",
     "vdot_conj_linear", "vdot_partial_eq_sum", "total_volume_mul", "multifield_op_keywise", "multifield_norm",
-    "domain_mismatch_rejected", "domain_mismatch_rejected_vdot", "total_volume_fibre", "mean_eq_weighted_average", "mean_weighted", "var_eq_weighted_variance",
+    "domain_mismatch_rejected", "domain_mismatch_rejected_vdot", "total_volume_fibre", "mean_eq_weighted_average",
+    "mean_weighted", "var_eq_weighted_variance", "structured_volume_consistent",
+    "evalBin_spec", "pointwise_binop_elementwise", "pointwise_scalar_elementwise", "pointwise_unary", "clip_spec",
+    "multifield_pointwise", "all_any_size_spec", "multifield_vdot", "multifield_vdot_conj_linear",
+    "flexible_addsub_spec", "field_norm",
     "weight_spec_driver", "integrate_driver", "mean_driver", "var_driver", "vdot_driver",
-    "mean_weighted_driver", "var_weighted_driver")]
+    "mean_weighted_driver", "var_weighted_driver", "pointwise_driver")]
 RULE = ("a case = DomainTuple(s) built with the repo's constructors (RGSpace dyadic distances, UnstructuredDomain, "
         "PowerSpace, DOFSpace, LMSpace, GLSpace, HPSpace; 0-3 sub-domains) + int/float/complex data (small integers / "
         "dyadic) + one public Field/MultiField method call with one `spaces` value (every subset of sub-domains is "
@@ -28,6 +32,9 @@ TRUSTED_BASE = [
     "hand-written model lean/NiftyVerif/Model/Field.lean of field.py / multi_field.py / domain_tuple.py volume logic, "
     "tied by differential execution on every run (class E exact, class F volumes of GLSpace/HPSpace shipped as exact "
     "dyadic rationals, class T 1e-9 for mean/var/std/norm(2)/negative powers/inexact volumes)",
+    "hypothesis VolConsistent for GLSpace / HPSpace: domain.total_volume (4*np.pi resp. size*pi/(3 nside^2)) equals the "
+    "sum of domain.dvol; a theorem for StructuredDomain's own formula, for these two classes assumed by the "
+    "weighted-average theorems and checked numerically (1e-12 relative) on every generated GLSpace/HPSpace",
     "harness: generators, canonicalisation, independent NumPy oracle (harness/props/c06.py, _c06_lib.py)"]
 ASSUMPTIONS = [
     "IEEE rounding and NumPy/ducc summation order are outside the model: only inputs on which every float operation is "
@@ -694,6 +701,15 @@ def check_vdot_laws(built):
 
 def oracle(case):
     built = L.Built(case)
+    if case.get("volume"):
+        for rec, dom in zip(case["doms"], built.doms):
+            for r, d in zip(rec, dom):
+                dv = d.dvol
+                tot = float(d.size * dv) if np.isscalar(dv) else float(np.sum(dv))
+                if not abs(float(d.total_volume) - tot) <= 1e-12 * abs(tot):
+                    return (f"{d!r}: total_volume differs from the sum of its volume factors",
+                            {"kind": "volume", "domain": r[0]})
+        return None
     for op in case["ops"]:
         r = check_op(built, op)
         if r is not None:
@@ -736,6 +752,24 @@ def load_corpus():
     return out
 
 
+def check_volume_hypothesis(ctx, case, built):
+    """trusted-base hypothesis of the weighted-average theorems (VolConsistent): total_volume = sum of dvol for the
+    domain classes whose total_volume is not StructuredDomain's formula on exact numbers (GLSpace, HPSpace)"""
+    for rec, dom in zip(case["doms"], built.doms):
+        for r, d in zip(rec, dom):
+            if L.nice_recipe(r):
+                continue
+            dv = d.dvol
+            tot = float(d.size * dv) if np.isscalar(dv) else float(np.sum(dv))
+            ctx.stat("hypothesis:total_volume=sum(dvol):" + r[0])
+            if not abs(float(d.total_volume) - tot) <= 1e-12 * abs(tot):
+                ctx.broke("correspondence", "hypothesis total_volume = sum(dvol) fails for " + repr(d),
+                          f"total_volume={float(d.total_volume)!r} sum(dvol)={tot!r}")
+                ctx.counterexample({"doms": [[r]], "fields": [], "mfields": [], "ops": [], "volume": True},
+                                   f"{d!r}: total_volume {float(d.total_volume)!r} differs from the sum of its volume "
+                                   f"factors {tot!r}", {"kind": "volume", "domain": r[0]})
+
+
 def run_cases(ctx, cases):
     builts = [L.Built(c) for c in cases]
     lines = [L.model_case(c, b) for c, b in zip(cases, builts)]
@@ -772,6 +806,7 @@ def run_cases(ctx, cases):
             r = check_op(built, op)
             if r is not None:
                 ctx.counterexample(one, *r)
+        check_volume_hypothesis(ctx, case, built)
         ctx.stat("nsub:%d" % len(case["doms"][0]))
         for rcp in case["doms"][0]:
             ctx.stat("sub:" + rcp[0])
